@@ -330,6 +330,11 @@ func (l *int32LeafNode) unlock() { l.mutex.Unlock() }
 type Int32Tree struct {
 	root  int32Node
 	order int
+
+	// rootMutex guards the root field. It is held while root is read or
+	// replaced, and released only once the root node itself is locked, so a
+	// descent can never start from a stale root.
+	rootMutex sync.Mutex
 }
 
 // NewInt32Tree returns a newly initialized Int32Tree of the specified
@@ -349,6 +354,8 @@ func NewInt32Tree(order int) (*Int32Tree, error) {
 
 // Delete removes the key-value pair from the tree.
 func (t *Int32Tree) Delete(key int32) {
+	t.rootMutex.Lock()
+	defer t.rootMutex.Unlock()
 	t.root.lock()
 	defer t.root.unlock()
 
@@ -367,6 +374,7 @@ func (t *Int32Tree) Delete(key int32) {
 // Insert inserts the key-value pair into the tree, replacing the existing value
 // with the new value if the key is already in the tree.
 func (t *Int32Tree) Insert(key int32, value interface{}) {
+	t.rootMutex.Lock()
 	n := t.root
 	n.lock()
 
@@ -389,6 +397,7 @@ func (t *Int32Tree) Insert(key int32, value interface{}) {
 			n = right
 		}
 	}
+	t.rootMutex.Unlock()
 
 	for n.isInternal() {
 		parent := n.(*int32InternalNode)
@@ -466,8 +475,10 @@ func (t *Int32Tree) Insert(key int32, value interface{}) {
 func (t *Int32Tree) Search(key int32) (interface{}, bool) {
 	var value interface{}
 	var ok bool
+	t.rootMutex.Lock()
 	n := t.root
 	n.lock()
+	t.rootMutex.Unlock()
 	for n.isInternal() {
 		parent := n.(*int32InternalNode)
 		child := parent.children[int32SearchLessThanOrEqualTo(key, parent.runts)]
@@ -496,6 +507,7 @@ func (t *Int32Tree) Search(key int32) (interface{}, bool) {
 // returns, the key will exist in the tree with the new value returned by the
 // callback function.
 func (t *Int32Tree) Update(key int32, callback func(interface{}, bool) interface{}) {
+	t.rootMutex.Lock()
 	n := t.root
 	n.lock()
 
@@ -518,6 +530,7 @@ func (t *Int32Tree) Update(key int32, callback func(interface{}, bool) interface
 			n = right
 		}
 	}
+	t.rootMutex.Unlock()
 
 	for n.isInternal() {
 		parent := n.(*int32InternalNode)
@@ -602,8 +615,10 @@ func (t *Int32Tree) Update(key int32, callback func(interface{}, bool) interface
 // of the locked node. The leaf node is only unlocked either by closing the
 // Cursor, or after all key-value pairs have been visited using Scan.
 func (t *Int32Tree) NewScanner(key int32) *Int32Cursor {
+	t.rootMutex.Lock()
 	n := t.root
 	n.lock()
+	t.rootMutex.Unlock()
 	for n.isInternal() {
 		parent := n.(*int32InternalNode)
 		child := parent.children[int32SearchLessThanOrEqualTo(key, parent.runts)]
